@@ -20,44 +20,48 @@ func runC20(a *A) {
 	a.Rule("ownmap/caller-map", 6, func() { a.ruleCallerMap(map[string]string{}) })
 	a.Rule("ownmap/caller-map-not-handed-out", 5, func() { a.ruleCallerMapNotHandedOut() })
 	a.Rule("ownmap/singleton-state", 3, func() { a.ruleSingletonState() })
-	a.Rule("flow/pooled-map-cleared", 1, func() {
-		n := 0
-		for _, fn := range a.ModFuncs {
-			if fn.Pkg != nil && !strings.Contains(fn.Pkg.Pkg.Path(), "/examples/") {
-				n += a.rulePooledMapCleared(fn)
-			}
+	a.Rule("flow/pooled-map-cleared", 1, func() { a.rulePooledMapsModule() })
+	a.Rule("ownmap/shared-state", 5, func() { a.ruleSharedState() })
+}
+
+func (a *A) rulePooledMapsModule() {
+	n := 0
+	for _, fn := range a.ModFuncs {
+		if fn.Pkg != nil && !strings.Contains(fn.Pkg.Pkg.Path(), "/examples/") {
+			n += a.rulePooledMapCleared(fn)
 		}
-		if n == 0 {
-			a.Und("pooled-map-cleared", token.NoPos, "no map taken from a sync.Pool found in the module")
+	}
+	if n == 0 {
+		a.Und("pooled-map-cleared", token.NoPos, "no map taken from a sync.Pool found in the module")
+	}
+}
+
+func (a *A) ruleSharedState() {
+	table := map[string]string{
+		"cep.baseMapPool":                    "sync.Pool of scratch maps for DEFINE evaluation; every map is cleared when taken",
+		"functions.adapterMutex":             "guards the aggregator-adapter registry",
+		"functions.aggregatorAdapters":       "aggregator-adapter registry, mutated only by the user-facing RegisterAggregatorAdapter",
+		"functions.globalBridge":             "lazily created process-wide expr bridge (caches keyed by expression text)",
+		"functions.globalBridgeMutex":        "guards the lazy creation of the bridge",
+		"functions.legacyAggregatorRegistry": "legacy aggregator registry, mutated only by the user-facing RegisterLegacyAggregator",
+		"functions.legacyRegistryMutex":      "guards the legacy registry",
+		"logger.defaultInstance":             "default logger, replaced only by the user-facing SetDefault",
+		"window.tsWarnOnce":                  "warn-once latch for unplaceable timestamps (log output only)",
+	}
+	gw := a.globalWriters()
+	var names []string
+	for g := range gw {
+		if strings.HasPrefix(g, "examples/") {
+			continue
 		}
-	})
-	a.Rule("ownmap/shared-state", 5, func() {
-		table := map[string]string{
-			"cep.baseMapPool":                    "sync.Pool of scratch maps for DEFINE evaluation; every map is cleared when taken",
-			"functions.adapterMutex":             "guards the aggregator-adapter registry",
-			"functions.aggregatorAdapters":       "aggregator-adapter registry, mutated only by the user-facing RegisterAggregatorAdapter",
-			"functions.globalBridge":             "lazily created process-wide expr bridge (caches keyed by expression text)",
-			"functions.globalBridgeMutex":        "guards the lazy creation of the bridge",
-			"functions.legacyAggregatorRegistry": "legacy aggregator registry, mutated only by the user-facing RegisterLegacyAggregator",
-			"functions.legacyRegistryMutex":      "guards the legacy registry",
-			"logger.defaultInstance":             "default logger, replaced only by the user-facing SetDefault",
-			"window.tsWarnOnce":                  "warn-once latch for unplaceable timestamps (log output only)",
+		names = append(names, g)
+	}
+	sort.Strings(names)
+	for _, g := range names {
+		if why, ok := table[g]; ok {
+			a.Ok("global:"+g, token.NoPos, "%s; writers: %v", why, gw[g])
+		} else {
+			a.Bad("global:"+g, token.NoPos, "package-level variable %s is written by %v: new process-wide mutable state through which two instances can influence each other (not in the reviewed table)", g, gw[g])
 		}
-		gw := a.globalWriters()
-		var names []string
-		for g := range gw {
-			if strings.HasPrefix(g, "examples/") {
-				continue
-			}
-			names = append(names, g)
-		}
-		sort.Strings(names)
-		for _, g := range names {
-			if why, ok := table[g]; ok {
-				a.Ok("global:"+g, token.NoPos, "%s; writers: %v", why, gw[g])
-			} else {
-				a.Bad("global:"+g, token.NoPos, "package-level variable %s is written by %v: new process-wide mutable state through which two instances can influence each other (not in the reviewed table)", g, gw[g])
-			}
-		}
-	})
+	}
 }
